@@ -171,15 +171,54 @@ def files_of(snapshot: Snapshot) -> Snapshot:
 
 
 # ------------------------------------------------------------------------------------------ images
+def store_image(work: pathlib.Path, img: pathlib.Path) -> bool:
+    """Turns the private directory `work` into the shared, read-only-by-convention image `img` (False: it exists already).
+    Images are copied by several workers at the same time, so a copy must never chmod anything inside an image: entries
+    the owner cannot read / traverse (a run may leave 0o000 or 0o200 files) are made readable ONCE, here, while the tree is
+    still private, and their real mode is recorded in the side file `<img>.modes` that copy_tree applies to its copy."""
+    real: typing.Dict[str, int] = {}
+    for dirpath, dirnames, filenames in os.walk(str(work)):
+        for name in dirnames + filenames:
+            p = os.path.join(dirpath, name)
+            st = os.lstat(p)
+            if stat.S_ISLNK(st.st_mode):
+                continue
+            m = stat.S_IMODE(st.st_mode)
+            need = 0o500 if stat.S_ISDIR(st.st_mode) else 0o400
+            if m & need != need:
+                real[os.path.relpath(p, str(work))] = m
+                os.chmod(p, m | need)
+    side = str(img) + ".modes"
+    tmp = f"{side}.{os.getpid()}"
+    with open(tmp, "w", encoding="utf-8") as f:
+        json.dump(real, f)
+    os.rename(tmp, side)  # every writer of one image writes the same content
+    try:
+        os.rename(str(work), str(img))
+        return True
+    except OSError:
+        return False
+
+
 def copy_tree(src: pathlib.Path, dst: pathlib.Path) -> None:
-    """dst must not exist. Content and st_mode & 0o7777 of every entry are preserved (nothing else is)."""
+    """dst must not exist. Content and st_mode & 0o7777 of every entry are preserved (nothing else is); modes listed in
+    the side file `<src>.modes` (see store_image) override the modes found in src. Nothing inside src is modified."""
+    side = str(src) + ".modes"
+    real: typing.Dict[str, int] = {}
+    if os.path.exists(side):
+        with open(side, encoding="utf-8") as f:
+            real = json.load(f)
+    src_s = str(src)
+
+    def mode_of(path: str, found: int) -> int:
+        return real.get(os.path.relpath(path, src_s), found) if real else found
 
     def rec(s: str, d: str) -> None:
         st_s = os.lstat(s)
         smode = stat.S_IMODE(st_s.st_mode)
         os.mkdir(d, 0o700)
         if smode & 0o500 != 0o500:
-            os.chmod(s, smode | 0o500)
+            raise HarnessError(f"image directory {s} is not traversable: images are stored through store_image()")
         try:
             for name in sorted(os.listdir(s)):
                 sp, dp = s + "/" + name, d + "/" + name
@@ -190,16 +229,16 @@ def copy_tree(src: pathlib.Path, dst: pathlib.Path) -> None:
                 elif stat.S_ISDIR(st.st_mode):
                     rec(sp, dp)
                 elif stat.S_ISREG(st.st_mode):
-                    data = _read_owned(sp, m)
+                    with open(sp, "rb") as f:
+                        data = f.read()
                     with open(dp, "wb") as f:
                         f.write(data)
-                    os.chmod(dp, m)
+                    os.chmod(dp, mode_of(sp, m))
                 else:
                     raise HarnessError(f"cannot copy special file {sp}")
         finally:
-            if smode & 0o500 != 0o500:
-                os.chmod(s, smode)
-        os.chmod(d, smode)
+            pass
+        os.chmod(d, mode_of(s, smode) if s != src_s else smode)
 
     rec(str(src), str(dst))
 
